@@ -1,5 +1,5 @@
 (* C04 — executable model of the framing layer of src/substream/mod.rs (after the `fix:` commits
-   F-C04a..g): the incremental frame reader (Stream::poll_next, read_payload_size), the Sink
+   F-C04a..f): the incremental frame reader (Stream::poll_next, read_payload_size), the Sink
    (poll_ready / start_send / poll_flush) and send_framed, all against a scripted byte carrier.
    Bytes are numbers (< 256 in every run; nothing depends on the bound). Definitions only. *)
 From Coq Require Import List NArith Bool.
@@ -325,17 +325,12 @@ Definition shutdown1 (script : list wev) : wres * bool * list wev :=
   | WChunk _ :: s => (WOk, true, s)
   end.
 
-(* Sink::poll_close, one poll: queued frames are flushed first, then the carrier is shut down.
-   The boolean says whether the carrier completed a shutdown in this call. *)
+(* Sink::poll_close, one poll: poll_shutdown of the carrier, nothing else — frames queued by
+   start_send and not yet flushed are NOT written (callers flush first). The boolean says whether
+   the carrier completed a shutdown in this call. *)
 Definition poll_close (script : list wev) (w : wstate) (sent : list N)
   : wres * wstate * list N * list wev * bool :=
-  if queue_nonempty w then
-    let '(r, w1, s1, sc1) := flush script w sent in
-    match r with
-    | WOk => let '(r2, sh, sc2) := shutdown1 sc1 in (r2, w1, s1, sc2, sh)
-    | _ => (r, w1, s1, sc1, false)
-    end
-  else let '(r2, sh, sc2) := shutdown1 script in (r2, w, sent, sc2, sh).
+  let '(r2, sh, sc2) := shutdown1 script in (r2, w, sent, sc2, sh).
 
 (* substream.shutdown().await, errors ignored *)
 Fixpoint shutdown_all (script : list wev) (npend : N) : wres * N * bool * list wev :=
@@ -346,16 +341,11 @@ Fixpoint shutdown_all (script : list wev) (npend : N) : wres * N * bool * list w
   | WChunk _ :: s => (WOk, npend, true, s)
   end.
 
-(* Substream::close(self): flush of queued frames (result ignored), then shutdown *)
+(* Substream::close(self): shutdown of the carrier only (errors ignored); queued frames are dropped
+   with the substream *)
 Definition close_all (script : list wev) (w : wstate) (sent : list N)
   : wres * N * wstate * list N * list wev * bool :=
-  let '(r0, np, w1, s1, sc1) :=
-    if queue_nonempty w then flush_all (S (length script)) script w sent 0
-    else (WOk, 0, w, sent, script) in
-  match r0 with
-  | WPend => (WPend, np, w1, s1, sc1, false)
-  | _ => let '(r, np', sh, sc2) := shutdown_all sc1 np in (r, np', w1, s1, sc2, sh)
-  end.
+  let '(r, np, sh, sc2) := shutdown_all script 0 in (r, np, w, sent, sc2, sh).
 
 (* ---------------------------------------------------------------- operation histories *)
 
